@@ -45,6 +45,14 @@ def full_stage(chk, pid, tier, seed):
                 # solutions in which only members of a stop group are lost / split / double-booked: the solver's un-plan
                 # operators un-plan MEMBER units (finding N1), the group can then never be completed again
                 members = {x for g in (inp.get("stop_groups") or []) for x in g}
+                # a member unit is the whole precedence component of a listed stop
+                grew = True
+                while grew:
+                    grew = False
+                    for a, b, _d in OF.precedence_arcs(inp):
+                        if (a in members) != (b in members):
+                            members |= {a, b}
+                            grew = True
                 ids = [set(re.findall(r"\b(?:s|alt)\d+\b", f)) for f in fails]
                 if members and all(i and i <= members for i in ids):
                     obj["finding_shape"] = {"kind": "solver_output", "symptom": "group_members", "oracle": pid}
@@ -69,6 +77,46 @@ def change_detail(prev_raw, cur_raw):
         if c in cats:
             return c
     return None
+
+
+def first_taint_step(r):
+    """step number of the first operation after which the nested bookkeeping can be corrupted, or None"""
+    ops = r["case"]["ops"]
+    tg = {}
+    for l in r["impl"]:
+        f = l.split()
+        if len(f) >= 3 and f[0].isdigit() and f[1] == "target":
+            tg[int(f[0])] = int(f[2]) if f[2].lstrip("-").isdigit() else 0
+        if len(f) >= 3 and f[0].isdigit() and f[1] == "result":
+            k = int(f[0])
+            if k < 1 or k > len(ops):
+                continue
+            op = ops[k - 1].split()[1]
+            grp = tg.get(k, 0) >= 1000
+            if op in ("munplanr", "vunplanr") or (op == "unplanr" and grp) or (op in ("planr", "plancr") and grp and f[2] != "done"):
+                return k
+    return None
+
+
+def diff_until_taint(r):
+    t = first_taint_step(r)
+    if t is None or not r["diff"]:
+        return r["diff"]
+    def keep(lines):
+        out = []
+        for l in lines:
+            f = l.split()
+            if f and f[0].isdigit() and int(f[0]) > t:
+                break
+            out.append(l)
+        return out
+    gl, ml = keep(r["impl"]), keep(r["model"])
+    if gl == ml:
+        return None
+    for k, (a, b) in enumerate(zip(gl, ml)):
+        if a != b:
+            return {"line": k, "impl": a, "model": b, "context": gl[max(0, k - 3):k]}
+    return {"line": min(len(gl), len(ml)), "impl": "<%d lines>" % len(gl), "model": "<%d lines>" % len(ml)}
 
 
 def nested_stage(chk, pid, tier, seed, names, check_c07):
@@ -105,6 +153,11 @@ def nested_stage(chk, pid, tier, seed, names, check_c07):
         cases.append({"id": "i%d" % i, "model": m, "ops": ops})
     n = len(cases)
     res, st = E.run_cases(cases, "%s_nested_%s" % (pid.lower(), tier), timeout=3000)
+    # implementation and model are compared up to AND INCLUDING the first step that corrupts the bookkeeping of nested
+    # units (findings N1-N4, N7: the step itself shows the finding); what either side does with a corrupted state is
+    # not part of the tie (N5)
+    for r in res:
+        r["diff"] = diff_until_taint(r)
     bad = [r for r in res if r["diff"]]
     chk.ob("nested units (stop groups, initial/fixed stops): %d histories identical to Model/Units.v" % n, not bad and st[0] == 0 and st[2] == 0,
            str(bad[0]["diff"])[:500] if bad else (st[1] + st[3])[-300:])
@@ -137,6 +190,13 @@ def nested_stage(chk, pid, tier, seed, names, check_c07):
                         fails.append((name, "score" if name == "C05" else "collections" if name == "C08" else "routes", fl[0]))
                 if check_c07 and prev is not None and st_["result"] in ("notdone", "noop") and st_["raw"] != prev["raw"]:
                     fails.append(("C07", change_detail(prev["raw"], st_["raw"]), "operation reported failure but the solution changed"))
+                if check_c07 and prev is not None and st_["raw"] != prev["raw"]:
+                    # cached values are a function of the routes: an operation after which every route is what it was
+                    # (a rolled-back un-plan, whatever it answers) must leave every cached value what it was
+                    rl = lambda raw: [x for x in raw if x.startswith("route ")]  # noqa: E731
+                    cl = lambda raw: [x for x in raw if x.startswith("cell ")]  # noqa: E731
+                    if rl(st_["raw"]) == rl(prev["raw"]) and cl(st_["raw"]) != cl(prev["raw"]):
+                        fails.append(("C07", "routes", "the routes are what they were but cached values of stops changed"))
                 if check_c07 and st_["result"] == "error":
                     fails.append(("C07", "error", "operation returned an engine error"))
             if fails and not reported:
@@ -145,7 +205,8 @@ def nested_stage(chk, pid, tier, seed, names, check_c07):
                 nviol += 1
                 chk.violation({"kind": "history", "what": msg, "oracle": name, "step": k,
                                "finding_shape": {"kind": "nested", "oracle": name, "op": op, "result": st_["result"],
-                                                 "group": group, "detail": detail, "tainted": tainted, "has_groups": bool(m.get("groups"))},
+                                                 "group": group, "detail": detail, "tainted": tainted, "has_groups": bool(m.get("groups")),
+                                                 "symptom": "planned_and_fixed" if "is in ['planned', 'fixed']" in msg else "other"},
                                "case": G.case_lines(m, ops[:k])})
             if op in ("munplanr", "vunplanr") or (op == "unplanr" and group) or (op in ("planr", "plancr") and group and st_["result"] != "done") \
                     or (op == "build" and fails):
